@@ -266,15 +266,23 @@ def _template_check(ctx):
     (self, tm, state_tm, initial_call) - the order in which execute() passes the four values - and whose body is f(<args_code>)"""
     src = ctx.source(FILE)
     fn, _ = src.find("_State.__init__")
+    # the template is whatever text reaches the eval() whose result becomes self.run (independent of the names of the temporaries)
     tmpl = None
-    for n in ast.walk(fn):
-        if isinstance(n, ast.Assign) and isinstance(n.value, ast.JoinedStr) and any(isinstance(t, ast.Name) and t.id == "wrapper_code" for t in n.targets):
-            parts = []
-            for v in n.value.values:
-                parts.append(v.value if isinstance(v, ast.Constant) else "__ARGS__")
-            tmpl = "".join(parts)
-    if tmpl is None:
-        return False, "wrapper_code f-string not found"
+    ev = [n for n in ast.walk(fn) if isinstance(n, ast.Assign) and any(isinstance(t, ast.Attribute) and t.attr == "run" and getattr(t.value, "id", None) == "self" for t in n.targets)]
+    if len(ev) != 1 or not (isinstance(ev[0].value, ast.Call) and getattr(ev[0].value.func, "id", None) == "eval" and ev[0].value.args):
+        return None, "self.run = eval(<template>, ...) not found"
+    srcx = ev[0].value.args[0]
+    if isinstance(srcx, ast.Name):
+        defs = [n for n in ast.walk(fn) if isinstance(n, ast.Assign) and any(isinstance(t, ast.Name) and t.id == srcx.id for t in n.targets)]
+        if len(defs) != 1:
+            return None, f"the evaluated text {srcx.id} has {len(defs)} definitions"
+        srcx = defs[0].value
+    if not isinstance(srcx, ast.JoinedStr):
+        return None, "the evaluated text is not an f-string"
+    holes = [v for v in srcx.values if not isinstance(v, ast.Constant)]
+    if len(holes) != 1:
+        return None, f"the evaluated f-string has {len(holes)} placeholders"
+    tmpl = "".join(v.value if isinstance(v, ast.Constant) else "__ARGS__" for v in srcx.values)
     if tmpl != TEMPLATE_HEAD + "__ARGS__" + TEMPLATE_TAIL:
         return False, f"template is {tmpl!r}"
     lam = ast.parse(tmpl.replace("__ARGS__", "a, b"), mode="eval").body
